@@ -30,8 +30,9 @@ def signame(n):
 class Shard(threading.Thread):
     """One worker process running cases from..to with a stride; restarted after each death."""
 
-    def __init__(self, binary, prop, base_args, start, stop, stride, profile, timeout, work, out, wrapper=None, extra_env=None):
+    def __init__(self, binary, prop, base_args, start, stop, stride, profile, timeout, work, out, wrapper=None, extra_env=None, ctl=None):
         super().__init__(daemon=True)
+        self.ctl = ctl if ctl is not None else {"hangs": 0, "abort": threading.Event(), "max_hangs": 3}
         self.binary, self.prop, self.base_args = binary, prop, base_args
         self.next_k, self.stop, self.stride = start, stop, stride
         self.profile, self.timeout, self.work, self.out = profile, timeout, work, out
@@ -41,6 +42,10 @@ class Shard(threading.Thread):
 
     def run(self):
         while self.next_k < self.stop:
+            if self.ctl["abort"].is_set():
+                # enough cases of this batch never terminated: the verdict is already decided, do not wait for the rest
+                self.out.put(("error", f"batch cut short after {self.ctl['hangs']} non-terminating cases (remaining cases of this shard not run)"))
+                return
             self.one_process()
             if self.deaths > 400:
                 self.out.put(("error", f"shard gave up after {self.deaths} worker deaths"))
@@ -120,6 +125,10 @@ class Shard(threading.Thread):
             self.out.put(("error", f"worker ended rc={rc} outside a case (next_k={self.next_k}); stderr: {err[-400:]}"))
             self.next_k += self.stride
             return
+        if timed_out or rc == 3:
+            self.ctl["hangs"] += 1
+            if self.ctl["hangs"] >= self.ctl["max_hangs"]:
+                self.ctl["abort"].set()
         if timed_out:
             current.fate = {"kind": "timeout", "after_s": self.timeout}
         elif rc < 0:
@@ -138,7 +147,8 @@ def run_batch(binary, prop, tier, seed, profile, total, jobs=None, timeout=300, 
     work = mkwork(f"{prop}-{profile}")
     out = queue.Queue()
     base = ["--seed", str(seed), "--tier", tier] + (extra_args or [])
-    shards = [Shard(binary, prop, base, first + i, total, jobs, profile, timeout, work, out, wrapper, extra_env)
+    ctl = {"hangs": 0, "abort": threading.Event(), "max_hangs": 3}
+    shards = [Shard(binary, prop, base, first + i, total, jobs, profile, timeout, work, out, wrapper, extra_env, ctl)
               for i in range(jobs)]
     for s in shards:
         s.start()
